@@ -259,8 +259,9 @@ def normalize_depth_variables(
             new_variable.attrs['positive'] = 'down' if positive_down else 'up'
 
         if 'positive' in variable.attrs:
-            positive_attr = variable.attrs.get('positive')
-            data_positive_down = (positive_attr == 'down')
+            # The value of the positive attribute is case insensitive
+            positive_attr = str(variable.attrs.get('positive'))
+            data_positive_down = (positive_attr.lower() == 'down')
         else:
             # No positive attribute set.
             # This is a violation of the CF conventions,
